@@ -21,9 +21,9 @@ from ..drivers import mesh as drv
 from ..report import Report
 
 CFG = {
-    "quick": {"cfg": "MC_Mesh_quick.cfg", "rand_variants": 24, "rand_derived": 1, "all_flips": [], "late_every": 5, "all_kappas_small": True, "kappas_per_state": 1,
+    "quick": {"cfg": "MC_Mesh_quick.cfg", "rand_variants": 24, "rand_derived": 1, "all_flips": [], "late_every": 5, "all_kappas_small": True, "kappas_per_state": 1, "rand_aniso": 4,
               "kappas": [("rand", "c16k1", -9, -5), ("rand", "c16k2", -5, 9)], "sweep_variants": 1},
-    "thorough": {"cfg": "MC_Mesh_thorough.cfg", "rand_variants": 300, "rand_derived": 4, "all_flips": ["prism", "octa", "box"], "late_every": 3, "all_kappas_small": False, "kappas_per_state": 2,
+    "thorough": {"cfg": "MC_Mesh_thorough.cfg", "rand_variants": 300, "rand_derived": 4, "all_flips": ["prism", "octa", "box"], "late_every": 3, "all_kappas_small": False, "kappas_per_state": 2, "rand_aniso": 40,
                  "kappas": [("rand", f"c16k{i}", lo, hi) for i, (lo, hi) in
                             enumerate([(-9, -7), (-7, -5), (-5, -3), (-3, -1), (-1, 1), (1, 3), (3, 6), (6, 9)])],
                  "sweep_variants": 4},
@@ -49,7 +49,8 @@ def plan_jobs(sts, observers, c):
         if k not in seen and s["kind"] != "pairbase":
             seen.add(k)
             uniq.append(s)
-    bases = {s["base"]: s for s in sts if s["op"] == "init" and s["kind"] == "closed"}
+    bases = {s["base"]: s for s in sts if s["op"] == "init" and s["kind"] == "closed" and s["fam"] == "std"}
+    refs = {drv.bkey(s): s for s in sts if s["op"] == "init" and s["kind"] == "closed"}      # every reference body, stretched ones too
     jobs = []
     tid = [0]
 
@@ -82,6 +83,13 @@ def plan_jobs(sts, observers, c):
                 v = drv.random_variant(s, r, flips=s["kind"] != "open")
                 add("mesh", v, 0, "ctor", "py")
                 add("mesh", v, r.choice(k_rand), "ctor", "py")
+    # (b1) random variants of the flat bodies (any face may come first, any winding)
+    for k, s in sorted(refs.items()):
+        if s["fam"] == "aniso" and max(s["stretch"]) >= 400:
+            for _ in range(c["rand_aniso"]):
+                v = drv.random_variant(s, r)
+                add("mesh", v, 0, "ctor", "py")
+                add("mesh", v, r.choice(k_rand), "ctor", "py")
     # (b2) the faces scipy's ConvexHull gives for the vertices of the convex bodies (what from_ConvexHull passes on):
     #      arbitrary winding, for box and prism also another triangulation of the quads (then no field law: not the same faces)
     for b, s in bases.items():
@@ -98,7 +106,8 @@ def plan_jobs(sts, observers, c):
     # (d) sweep over the decades of the lattice unit
     first_of = {}
     for s in uniq:
-        first_of.setdefault((s["base"], s["kind"]), s)
+        if s["fam"] == "std":
+            first_of.setdefault((s["base"], s["kind"]), s)
     pair_classes = {}
     for s in uniq:
         if s["kind"] == "pair":
@@ -139,7 +148,7 @@ def plan_jobs(sts, observers, c):
     for (b, k), s in first_of.items():
         for mode in ("warn", "raise"):
             add("mode", s, mode)
-    return kspec, bases, jobs
+    return kspec, refs, jobs
 
 
 def annotate_pairs(sts):
@@ -179,7 +188,7 @@ def find_events(files, tids):
 def where_of(ev, clause, ctx):
     w = {"type": ev["type"], "decade": ev["decade"]}
     if ev["type"] == "mesh":
-        w.update({"kind": ev["kind"], "base": ev["base"], "path": ev["path"]})
+        w.update({"kind": ev["kind"], "base": ev["base"], "path": ev["path"], "aspect": max(ev.get("stretch", [1]))})
         if clause in ("status_open", "status_disconnected"):
             w["reported"] = ctx[1]
         elif clause.startswith("status_selfintersecting"):
@@ -211,17 +220,18 @@ def run():
     rep.set("mc_depth", res.get("depth"))
     rep.phase("model_check")
     sts = drv.states_from_dump(states)
-    sts.sort(key=lambda s: (s["base"], s["kind"], s["n"], s["op"] != "init", s["verts"], s["faces"]))   # the dump order depends on thread timing
+    sts.sort(key=lambda s: (s["fam"], s["base"], s["stretch"], s["kind"], s["n"], s["op"] != "init", s["verts"], s["faces"]))   # the dump order depends on thread timing
     if len(sts) != res["distinct"]:
         raise MachineryError(f"dump has {len(sts)} states, TLC reports {res['distinct']}")
     observers = drv.observers_from_output(res["out"])
     annotate_pairs(sts)
     kinds = {}
     for s in sts:
-        kinds[f"{s['base']}:{s['kind']}"] = kinds.get(f"{s['base']}:{s['kind']}", 0) + 1
+        kk = f"{s['base']}:{s['kind']}" if s["fam"] == "std" else f"flat 1:{max(s['stretch'])} {s['base']}:{s['kind']}"
+        kinds[kk] = kinds.get(kk, 0) + 1
     rep.set("mc_states_by_base_kind", kinds)
     kspec, bases, jobs = plan_jobs(sts, observers, c)
-    missing = [b for b in bases if b not in observers]
+    missing = [s["base"] for s in bases.values() if s["base"] not in observers]
     if missing or not bases:
         raise MachineryError(f"no observers printed by MC_Mesh for {missing}")
     rep.phase("plan")
@@ -264,7 +274,7 @@ def run():
         key = f"{prop}:{clause}"
         by_decade.setdefault(key, {})
         by_decade[key][str(ev["decade"])] = by_decade[key].get(str(ev["decade"]), 0) + 1
-        what = f"{ev['type']} {ev.get('base', ev.get('label'))}/{ev.get('kind', '')} lattice unit 1e{ev['decade']} m: {clause} {ctx}"
+        what = f"{ev['type']} {ev.get('base', ev.get('label'))}/{ev.get('kind', '')} lattice unit 1e{ev['decade']} m stretch {ev.get('stretch', '')}: {clause} {ctx}"
         rep.reject(clause, w, what, {"event": ev}, prop=prop)
     rep.set("rejected_by_clause_and_decade", by_decade)
     with open(os.path.join(d, "rejects.json"), "w") as f:      # for triage: every rejected event with its verdict
@@ -277,6 +287,8 @@ def run():
     rep.assume("TLC, SANY and the JSON module are trusted; the lattice projection of the stored vertices and the 1e-8 fixed-point logging of fields are done in python")
     rep.assume("self-intersection ground truth is the exact closed triangle/triangle predicate of Mesh.tla; for contacts without transversal crossing it is "
                "demanded only for pairs of lattice boxes whose interpenetration the interval predicate proves")
+    rep.assume("flat bodies: tetrahedron, prism, octahedron, hexagonal prism stretched by diag(k,k,1), diag(k,1,k), diag(1,k,k), k up to 10^4; their ground truth is "
+               "evaluated on the mesh with the stretch divided out exactly (invariance under the stretch model-checked for k <= 10)")
     rep.assume("all variants of the tetrahedron are enumerated; larger meshes: TLC palette of permutations, single/double flips, seeded random variants; "
                "cyclic rewinding of tetrahedron faces only through random variants of the larger meshes (TetraRewind = FALSE)")
     rep.assume("field law compared at the %d..%d observers per body declared in Mesh.tla (classified exactly by MC_Mesh), tolerance 1e-8 of gross scale" %
@@ -290,7 +302,7 @@ def replay(path):
     kap = drv.kappa_from_json(ev["kap"]) if "kap" in ev else None
     print("event", ev["type"], ev.get("base"), ev.get("kind"), "decade", ev["decade"])
     if ev["type"] == "mesh":
-        msh = {"verts": ev["verts_in"], "faces": ev["faces_in"], "kind": ev["kind"], "base": ev["base"]}
+        msh = {"verts": ev["verts_in"], "faces": ev["faces_in"], "kind": ev["kind"], "base": ev["base"], "stretch": ev.get("stretch", [1, 1, 1])}
         m, st = drv.build(msh, kap, ev["path"])
         print("lattice unit", kap.lam, "status open/disconnected/selfintersecting now:", st, " logged:", (ev["open"], ev["disc"], ev["selfint"]))
         print("faces in ", ev["faces_in"])
